@@ -4,39 +4,64 @@
 //! barter/src/engine/action/{mod,send_requests,generate_algo_orders}.rs; `eng` drives the real
 //! `Engine::process` (exchange 0 healthy link, exchanges 1 and 2 closed links).
 use barter::{
+    EngineEvent,
     engine::{
-        EngineOutput, Processor, UpdateFromAccountOutput, UpdateFromMarketOutput,
+        Engine, EngineOutput, Processor, UpdateFromAccountOutput, UpdateFromMarketOutput,
         action::{
             ActionOutput,
             generate_algo_orders::GenerateAlgoOrdersOutput,
             send_requests::{SendCancelsAndOpensOutput, SendRequestsOutput},
         },
         audit::{EngineAudit, ProcessAudit},
+        clock::HistoricalClock,
+        command::Command,
         error::{EngineError, RecoverableEngineError, UnrecoverableEngineError},
-        state::position::PositionExited,
+        execution_tx::MultiExchangeTxMap,
+        state::{
+            EngineState,
+            global::DefaultGlobalData,
+            instrument::{data::DefaultInstrumentMarketData, filter::InstrumentFilter},
+            position::PositionExited,
+            trading::TradingState,
+        },
     },
+    execution::{AccountStreamEvent, request::ExecutionRequest},
     risk::RiskRefused,
+    strategy::{
+        algo::AlgoStrategy, close_positions::ClosePositionsStrategy, on_disconnect::OnDisconnectStrategy,
+        on_trading_disabled::OnTradingDisabled,
+    },
 };
+use barter_data::streams::consumer::MarketStreamEvent;
 use barter_execution::{
+    AccountEvent, AccountEventKind,
     order::{
-        OrderEvent, OrderKey, OrderKind, TimeInForce,
-        id::{ClientOrderId, StrategyId},
+        Order, OrderEvent, OrderKey, OrderKind, TimeInForce,
+        id::{ClientOrderId, OrderId, StrategyId},
         request::{OrderRequestCancel, OrderRequestOpen, RequestCancel, RequestOpen},
+        state::{Open, OrderState},
     },
     trade::AssetFees,
 };
-use barter_instrument::{Side, asset::QuoteAsset, exchange::ExchangeIndex, instrument::InstrumentIndex};
+use barter_instrument::{
+    Side, Underlying,
+    asset::{AssetIndex, QuoteAsset},
+    exchange::{ExchangeId, ExchangeIndex},
+    index::IndexedInstruments,
+    instrument::{Instrument, InstrumentIndex},
+};
 use barter_integration::{
     FeedEnded, Terminal,
+    channel::{UnboundedRx, mpsc_unbounded},
     collection::{none_one_or_many::NoneOneOrMany, one_or_many::OneOrMany},
+    snapshot::Snapshot,
 };
 use rust_decimal::Decimal;
-use std::borrow::{Borrow, BorrowMut};
-use vh::{
-    engine_proto::{Built2, build_event, init_world, parse_reqs},
-    engine_util::*,
-    *,
+use std::{
+    borrow::{Borrow, BorrowMut},
+    cell::RefCell,
 };
+use vh::{engine_util::*, *};
 
 type N = NoneOneOrMany<i64>;
 type O = OneOrMany<i64>;
@@ -317,39 +342,257 @@ fn split_slash(toks: &[String]) -> Vec<Vec<String>> {
     toks.split(|t| t == "/").map(|g| g.to_vec()).collect()
 }
 
-/// one call of the real `Engine::process`
-fn eng(toks: &[String], lines: &mut Vec<String>) {
-    let init: Vec<String> = [toks[0].as_str(), "L", "HCC", "I", "0,0,3", "1,0,3", "2,0,3"]
-        .iter()
-        .map(|s| s.to_string())
+type ReqC = OrderRequestCancel<ExchangeIndex, InstrumentIndex>;
+type ReqO = OrderRequestOpen<ExchangeIndex, InstrumentIndex>;
+
+/// Strategy of the `eng` op: BOTH user hooks are scripted - the algo requests of the tick and the
+/// requests `close_positions_requests` returns (cancels AND opens; the shared `TestStrategy` of
+/// `vh::engine_util` closes with the repository's `close_open_positions_with_market_orders`, which
+/// never produces a cancel, so the `cancels.extend(opens)` of a ClosePositions command would not be
+/// reachable end to end with it).
+#[derive(Debug, Default)]
+struct EngStrategy {
+    algo: RefCell<Option<(Vec<ReqC>, Vec<ReqO>)>>,
+    close: RefCell<(Vec<ReqC>, Vec<ReqO>)>,
+}
+type EngEngine = Engine<HistoricalClock, State, Txs, EngStrategy, TestRisk>;
+
+impl AlgoStrategy for EngStrategy {
+    type State = State;
+    fn generate_algo_orders(
+        &self,
+        _: &Self::State,
+    ) -> (impl IntoIterator<Item = ReqC>, impl IntoIterator<Item = ReqO>) {
+        self.algo.borrow_mut().take().unwrap_or_default()
+    }
+}
+impl ClosePositionsStrategy for EngStrategy {
+    type State = State;
+    fn close_positions_requests<'a>(
+        &'a self,
+        _: &'a Self::State,
+        _: &'a InstrumentFilter<ExchangeIndex, AssetIndex, InstrumentIndex>,
+    ) -> (impl IntoIterator<Item = ReqC> + 'a, impl IntoIterator<Item = ReqO> + 'a)
+    where
+        ExchangeIndex: 'a,
+        AssetIndex: 'a,
+        InstrumentIndex: 'a,
+    {
+        self.close.borrow().clone()
+    }
+}
+impl OnDisconnectStrategy<HistoricalClock, State, Txs, TestRisk> for EngStrategy {
+    type OnDisconnect = ();
+    fn on_disconnect(_: &mut EngEngine, _: ExchangeId) -> Self::OnDisconnect {}
+}
+impl OnTradingDisabled<HistoricalClock, State, Txs, TestRisk> for EngStrategy {
+    type OnTradingDisabled = ();
+    fn on_trading_disabled(_: &mut EngEngine) -> Self::OnTradingDisabled {}
+}
+
+/// the world of one `eng` op: a real engine over three instruments, instrument `k` on exchange label
+/// `k`; exchange 0 has a healthy execution link, exchanges 1 and 2 a closed one
+struct EngWorld {
+    engine: EngEngine,
+    /// exchange label -> ExchangeIndex position
+    ex_idx: Vec<usize>,
+    /// instrument label -> InstrumentIndex position
+    ins_idx: Vec<usize>,
+    _rx: UnboundedRx<ExecutionRequest>,
+}
+
+fn eng_world(trading: TradingState) -> EngWorld {
+    let mut builder = IndexedInstruments::builder();
+    for k in 0..3usize {
+        builder = builder.add_instrument(Instrument::spot(
+            EXCHANGES[k],
+            format!("i{k}"),
+            format!("I{k}"),
+            Underlying::new("a0", "a3"),
+            None,
+        ));
+    }
+    let instruments = builder.build();
+    let state: State =
+        EngineState::builder(&instruments, DefaultGlobalData::default(), DefaultInstrumentMarketData::default)
+            .time_engine_start(t0())
+            .trading_state(trading)
+            .build();
+    let ex_idx: Vec<usize> = (0..3)
+        .map(|l| instruments.exchanges().iter().position(|e| e.value == EXCHANGES[l]).unwrap())
         .collect();
-    let mut w = init_world(&init);
+    let ins_idx: Vec<usize> = (0..3)
+        .map(|k| {
+            state.instruments.0.values()
+                .position(|s| s.instrument.name_internal.name().as_str() == format!("i{k}"))
+                .unwrap()
+        })
+        .collect();
+    let (tx0, rx0) = mpsc_unbounded::<ExecutionRequest>();
+    let mut tx0 = Some(tx0);
+    let txs: Vec<(ExchangeId, Option<TestTx>)> = instruments
+        .exchanges()
+        .iter()
+        .map(|exchange| {
+            if exchange.value == EXCHANGES[0] {
+                (exchange.value, Some(TestTx::Real(tx0.take().unwrap())))
+            } else {
+                let (tx, rx) = mpsc_unbounded::<ExecutionRequest>();
+                drop(rx);
+                (exchange.value, Some(TestTx::Real(tx)))
+            }
+        })
+        .collect();
+    let engine = Engine::new(
+        HistoricalClock::new(t0()),
+        state,
+        MultiExchangeTxMap::from_iter(txs),
+        EngStrategy::default(),
+        TestRisk,
+    );
+    EngWorld { engine, ex_idx, ins_idx, _rx: rx0 }
+}
+
+/// `ex:cid` -> (exchange label, cid)
+fn parse_eng_req(t: &String) -> (usize, String) {
+    let (ex, cid) = t.split_once(':').expect("req");
+    (ex.parse().expect("exchange label"), cid.to_string())
+}
+fn eng_key(w: &EngWorld, ex: usize, cid: &str) -> OrderKey<ExchangeIndex, InstrumentIndex> {
+    OrderKey {
+        exchange: ExchangeIndex(w.ex_idx[ex]),
+        instrument: InstrumentIndex(w.ins_idx[ex]),
+        strategy: StrategyId::new("verif"),
+        cid: ClientOrderId::new(cid),
+    }
+}
+fn eng_cancels(w: &EngWorld, g: &[String]) -> Vec<ReqC> {
+    g.iter()
+        .map(|t| {
+            let (ex, cid) = parse_eng_req(t);
+            OrderEvent { key: eng_key(w, ex, &cid), state: RequestCancel { id: None } }
+        })
+        .collect()
+}
+fn eng_opens(w: &EngWorld, g: &[String]) -> Vec<ReqO> {
+    g.iter()
+        .map(|t| {
+            let (ex, cid) = parse_eng_req(t);
+            OrderEvent {
+                key: eng_key(w, ex, &cid),
+                state: RequestOpen {
+                    side: Side::Buy,
+                    price: Decimal::from(100),
+                    quantity: Decimal::ONE,
+                    kind: OrderKind::Market,
+                    time_in_force: TimeInForce::ImmediateOrCancel,
+                },
+            }
+        })
+        .collect()
+}
+
+/// one call of the real `Engine::process`
+///   `eng on|off <ev> [req*] / algoC* / algoO*`                       (every event but `cmdx`)
+///   `eng on|off cmdx closeC* / closeO* / algoC* / algoO*`            (`Command::ClosePositions`)
+/// `cmdk` = `Command::CancelOrders(InstrumentFilter::None)`: its request group lists the orders the
+/// engine tracks as `Open` when the command arrives (put there through order snapshots), sorted by
+/// exchange label and pairwise distinct - the engine walks the instruments in index order and the
+/// orders of one instrument in hash-map order (all of them on the same exchange, so the audit's errors
+/// do not depend on that order).
+fn eng(toks: &[String], lines: &mut Vec<String>) {
+    let trading = match toks[0].as_str() {
+        "on" => TradingState::Enabled,
+        "off" => TradingState::Disabled,
+        other => panic!("bad trading state {other}"),
+    };
+    let ev = toks[1].as_str();
     let groups = split_slash(&toks[2..]);
-    assert_eq!(groups.len(), 3, "eng needs three request groups");
-    // ex:cid -> engine protocol request tokens (instrument label = exchange label)
-    let req = |kind: &str, t: &String| {
-        let (ex, cid) = t.split_once(':').expect("req");
-        if kind == "c" { format!("c:{ex}:{ex}:{cid}") } else { format!("o:{ex}:{ex}:{cid}:B:100:1") }
+    let n_cmd_groups = if ev == "cmdx" { 2 } else { 1 };
+    if groups.len() != n_cmd_groups + 2 {
+        lines.push("bad-op".into());
+        return;
+    }
+    let all_reqs: Vec<(usize, String)> = groups.iter().flatten().map(parse_eng_req).collect();
+    if all_reqs.iter().any(|(ex, _)| *ex > 2) {
+        lines.push("bad-op".into());
+        return;
+    }
+    let takes_reqs = matches!(ev, "cmdc" | "cmdo" | "cmdk" | "cmdx");
+    if !takes_reqs && !groups[0].is_empty() {
+        lines.push("bad-op".into());
+        return;
+    }
+    if ev == "cmdk" {
+        let orders: Vec<(usize, String)> = groups[0].iter().map(parse_eng_req).collect();
+        let sorted = orders.windows(2).all(|p| p[0].0 <= p[1].0);
+        let distinct = (0..orders.len()).all(|i| (0..i).all(|j| orders[i] != orders[j]));
+        if !sorted || !distinct {
+            lines.push("bad-op".into());
+            return;
+        }
+    }
+    let mut w = eng_world(trading);
+    let algo_c = eng_cancels(&w, &groups[n_cmd_groups]);
+    let algo_o = eng_opens(&w, &groups[n_cmd_groups + 1]);
+    let time = time_ms(1);
+    let event: EngineEvent<barter_data::event::DataKind> = match ev {
+        "shutdown" => EngineEvent::Shutdown(barter::shutdown::Shutdown),
+        "cmdc" => EngineEvent::Command(Command::SendCancelRequests(OneOrMany::from_iter(eng_cancels(&w, &groups[0])))),
+        "cmdo" => EngineEvent::Command(Command::SendOpenRequests(OneOrMany::from_iter(eng_opens(&w, &groups[0])))),
+        "cmdk" => {
+            // the engine learns of the open orders the way it does in production: order snapshots
+            for (ex, cid) in groups[0].iter().map(parse_eng_req) {
+                let snapshot = EngineEvent::Account(AccountStreamEvent::Item(AccountEvent {
+                    exchange: ExchangeIndex(w.ex_idx[ex]),
+                    kind: AccountEventKind::OrderSnapshot(Snapshot(Order {
+                        key: eng_key(&w, ex, &cid),
+                        side: Side::Buy,
+                        price: Decimal::from(100),
+                        quantity: Decimal::ONE,
+                        kind: OrderKind::Limit,
+                        time_in_force: TimeInForce::GoodUntilCancelled { post_only: false },
+                        state: OrderState::active(Open {
+                            id: OrderId::new(format!("x{cid}")),
+                            time_exchange: time,
+                            filled_quantity: Decimal::ZERO,
+                        }),
+                    })),
+                }));
+                let pre = w.engine.process(snapshot);
+                assert!(!pre.is_terminal(), "order snapshot must not end the run");
+            }
+            let tracked: usize = w.engine.state.instruments.0.values().map(|s| s.orders.0.len()).sum();
+            assert_eq!(tracked, groups[0].len(), "every listed order is tracked");
+            EngineEvent::Command(Command::CancelOrders(InstrumentFilter::None))
+        }
+        "cmdx" => {
+            *w.engine.strategy.close.borrow_mut() = (eng_cancels(&w, &groups[0]), eng_opens(&w, &groups[1]));
+            EngineEvent::Command(Command::ClosePositions(InstrumentFilter::None))
+        }
+        "ts_on" => EngineEvent::TradingStateUpdate(TradingState::Enabled),
+        "ts_off" => EngineEvent::TradingStateUpdate(TradingState::Disabled),
+        // historical op name: an ACCOUNT balance snapshot item (an update without output)
+        "mkt" => {
+            let asset = w.engine.state.assets.0.keys().position(|k| k.exchange == EXCHANGES[0]).expect("asset");
+            EngineEvent::Account(AccountStreamEvent::Item(AccountEvent {
+                exchange: ExchangeIndex(w.ex_idx[0]),
+                kind: AccountEventKind::BalanceSnapshot(Snapshot(barter_execution::balance::AssetBalance {
+                    asset: AssetIndex(asset),
+                    balance: barter_execution::balance::Balance::new(Decimal::from(1001), Decimal::from(1001)),
+                    time_exchange: time,
+                })),
+            }))
+        }
+        "mktre" => EngineEvent::Market(MarketStreamEvent::Reconnecting(EXCHANGES[0])),
+        "accre" => EngineEvent::Account(AccountStreamEvent::Reconnecting(EXCHANGES[0])),
+        _ => {
+            lines.push("bad-op".into());
+            return;
+        }
     };
-    let ev_toks: Vec<String> = match toks[1].as_str() {
-        "shutdown" => vec!["shutdown".into()],
-        "cmdc" => std::iter::once("cmd_cancel".to_string()).chain(groups[0].iter().map(|t| req("c", t))).collect(),
-        "cmdo" => std::iter::once("cmd_open".to_string()).chain(groups[0].iter().map(|t| req("o", t))).collect(),
-        "ts_on" => vec!["trading".into(), "on".into()],
-        "ts_off" => vec!["trading".into(), "off".into()],
-        "mkt" => vec!["other".into(), "acc".into(), "0".into()],
-        "mktre" => vec!["other".into(), "mktre".into(), "0".into()],
-        "accre" => vec!["other".into(), "accre".into(), "0".into()],
-        other => panic!("bad eng event {other}"),
-    };
-    let algo_c = parse_reqs(&w, &groups[1].iter().map(|t| req("c", t)).collect::<Vec<_>>()).0;
-    let algo_o = parse_reqs(&w, &groups[2].iter().map(|t| req("o", t)).collect::<Vec<_>>()).1;
-    let event = match build_event(&mut w, &ev_toks) {
-        Built2::Event(e, _) => e,
-        _ => panic!("event not built"),
-    };
-    w.built.engine.strategy.script.borrow_mut().push_back((algo_c, algo_o));
-    let audit = w.built.engine.process(event);
+    *w.engine.strategy.algo.borrow_mut() = Some((algo_c, algo_o));
+    let audit = w.engine.process(event);
     let terminal = audit.is_terminal();
     let EngineAudit::Process(p) = audit else {
         lines.push("feedended".into());
@@ -387,6 +630,12 @@ fn eng(toks: &[String], lines: &mut Vec<String>) {
     lines.push(format!("terminal {}", b(terminal)));
 }
 
+/// `x + k` for every item, `None` if one of the sums leaves `i64` (then the op is not executed and both
+/// sides answer `bad-op`: the closure `|x| x + k` is the harness's, not code under test)
+fn shift_ok(items: &[i64], k: i64) -> bool {
+    items.iter().all(|x| x.checked_add(k).is_some())
+}
+
 fn run() {
     run_cases(|case, lines| {
         let mut n: N = N::default();
@@ -410,6 +659,8 @@ fn run() {
                     lines.push(format!("eq {}", b(n == v)));
                     lines.push(format!("ord {}", ord(n.cmp(&v))));
                 }
+                "n.map" | "n.mut" if !shift_ok(n.as_ref(), rest[0].parse().unwrap()) => lines.push("bad-op".into()),
+                "o.map" | "o.mut" if !shift_ok(o.as_ref(), rest[0].parse().unwrap()) => lines.push("bad-op".into()),
                 "n.raw" | "n.vec" | "n.iter" | "n.opt" | "n.default" | "n.ext" | "n.extn" | "n.map" | "n.mut" => {
                     n = match name {
                         "n.raw" => raw_n(rest),
@@ -721,8 +972,23 @@ fn gen_op(rng: &mut Rng, family: u64) -> String {
             let mut next = 0u64;
             let pct = *rng.pick(&[0u64, 40, 80]);
             let onoff = if rng.chance(70) { "on" } else { "off" };
-            let ev = *rng.pick(&["shutdown", "cmdc", "cmdo", "ts_on", "ts_off", "mkt", "mktre", "accre"]);
-            let g0 = if ev == "cmdc" || ev == "cmdo" { reqs(rng, &mut next, pct) } else { String::new() };
+            // the four commands get half of the weight
+            let ev = *rng.pick(&[
+                "shutdown", "cmdc", "cmdo", "cmdk", "cmdx", "cmdx", "cmdk", "cmdc", "ts_on", "ts_off", "mkt", "mktre", "accre",
+            ]);
+            let g0 = match ev {
+                "cmdc" | "cmdo" => reqs(rng, &mut next, pct),
+                // the tracked orders of a CancelOrders command: sorted by exchange (no risk refusal on this path,
+                // a cid >= 5000 is an ordinary cid here)
+                "cmdk" => {
+                    let mut v: Vec<String> = reqs(rng, &mut next, pct).split(' ').filter(|t| !t.is_empty()).map(String::from).collect();
+                    v.sort_by_key(|t| t.split_once(':').unwrap().0.parse::<u64>().unwrap());
+                    v.join(" ")
+                }
+                // ClosePositions: the strategy's cancels / its opens
+                "cmdx" => format!("{} / {}", reqs(rng, &mut next, pct), reqs(rng, &mut next, pct)),
+                _ => String::new(),
+            };
             let g1 = reqs(rng, &mut next, pct);
             let g2 = reqs(rng, &mut next, pct);
             format!("eng {onoff} {ev} {g0} / {g1} / {g2}").replace("  ", " ").trim_end().to_string()
@@ -824,6 +1090,38 @@ fn generate(seed: u64, n_cases: usize, tier: &str) {
                 let os: Vec<String> = o.iter().enumerate().map(|(i, k)| format!("{k}{}", i + 4)).collect();
                 out.line(format!("act.x {} / {}", cs.join(" "), os.join(" ")).replace("  ", " ").trim_end());
                 out.line(format!("act.g {} / {} / 0 0", cs.join(" "), os.join(" ")).replace("  ", " "));
+            }
+        }
+    }
+    if tier == "thorough" {
+        // one real Engine::process per pattern of healthy (0) / dead (1, 2) exchanges: one or two cancels x up to
+        // three opens, once as the requests of a ClosePositions command (command path) and once as the algo
+        // requests of an account-item tick (generation stage) - every instance of the reversing arm of `extend`
+        // with items that are / are not all equal
+        let mut ex_lists: Vec<Vec<u64>> = vec![vec![]];
+        let mut frontier: Vec<Vec<u64>> = vec![vec![]];
+        for _ in 0..3 {
+            let mut next = vec![];
+            for l in &frontier {
+                for x in [0u64, 1, 2] {
+                    let mut l2 = l.clone();
+                    l2.push(x);
+                    next.push(l2);
+                }
+            }
+            ex_lists.extend(next.iter().cloned());
+            frontier = next;
+        }
+        let fmt = |l: &Vec<u64>, base: usize| {
+            l.iter().enumerate().map(|(i, ex)| format!("{ex}:{}", base + i)).collect::<Vec<_>>().join(" ")
+        };
+        for c in ex_lists.iter().filter(|l| l.len() <= 2) {
+            for o in &ex_lists {
+                id += 1;
+                out.case(format!("xe{id}"));
+                let (cs, os) = (fmt(c, 1), fmt(o, 4));
+                out.line(format!("eng on cmdx {cs} / {os} / /").replace("  ", " ").trim_end());
+                out.line(format!("eng on mkt / {cs} / {os}").replace("  ", " ").trim_end());
             }
         }
     }
